@@ -179,7 +179,10 @@ func verifC10NewStore(kinds []int, n int) {
 				fetched = or(fetched, and(client.oks[j], client.names[j] == nm))
 			}
 			if kind == 4 {
-				// arbitrary cache bytes may happen to be a well-formed document; only a fetched value is checked
+				// arbitrary cache bytes may happen to be a well-formed document; only then may a value come from it
+				if ghostCount("json.decode.failed") > 0 {
+					assert("undecodable-cache-ignored-as-a-whole", fetched)
+				}
 				if !fetched {
 					continue
 				}
@@ -202,6 +205,15 @@ func verifC10NewStore(kinds []int, n int) {
 			assert("complete-cache-no-service-contact", len(client.names) == 0)
 			reach("end-from-cache")
 		}
+	}
+	if kind == 4 && ghostCount("json.decode.failed") > 0 {
+		assert("undecodable-cache-contributes-no-names", mapAll(s.active.m, func(nm string, _ *cachedSecret) bool {
+			declared := false
+			for _, d := range names {
+				declared = or(declared, d == nm)
+			}
+			return declared
+		}))
 	}
 	// C13(a): if anything had to be fetched the cache is rewritten with the whole active set (a write error is not fatal)
 	if len(client.names) > 0 && cache != nil {
